@@ -11,7 +11,7 @@ Goals (forward-mode AD in a1):
 from fractions import Fraction
 
 from .common import *  # noqa
-from symx.solver import explore, prove_zero
+from symx.solver import explore, prove_zero, prove_equal
 from symx import harness as H
 
 MOD = "harness.C13"
@@ -92,7 +92,7 @@ def case_ei(log, names, concrete_nf=None):
                 rhs = _taylor_integrand(a1, beta0, bs, m, order)
             else:
                 rhs = a1**m / (beta0 * _P(a1, bs))
-            v = prove_zero(J.tangent() - rhs, "d %s/d a1 == integrand" % name)
+            v = prove_equal(J.tangent(), rhs, "d %s/d a1 == integrand" % name)
             log.decide(v, key="%s:derivative" % name, replay=(MOD, "replay", {"name": name, "nf": concrete_nf}), sampler=_sampler)
             # zero at coinciding limits
             J0 = _call_ei(ei, name, a0, a0, beta0, b)
@@ -202,7 +202,7 @@ def case_as4(log, shape):
             js[name] = J
             Jc = Cx.lift(J)
             rhs = a1**m / (beta0 * P1)
-            v1 = prove_zero(Jc.re.tangent() - rhs, "Re d %s_exact/d a1 == a1^%d/(beta0 P)" % (name, m))
+            v1 = prove_equal(Jc.re.tangent(), rhs, "Re d %s_exact/d a1 == a1^%d/(beta0 P)" % (name, m))
             log.decide(v1, key="as4.%s_exact:derivative" % name, replay=(MOD, "replay_as4", {"name": name, "shape": shape}), sampler=_sampler)
             v2 = prove_zero(Jc.im, "Im %s_exact == 0 (tangent)" % name, tangent=True)
             log.decide(v2, key="as4.%s_exact:imag" % name, replay=(MOD, "replay_as4", {"name": name, "shape": shape}), sampler=_sampler)
@@ -239,7 +239,7 @@ def case_as4_expanded(log):
             J0 = f(a0, a0, beta0) if name == "j33" else f(a0, a0, beta0, b)
             js[name] = J
             rhs = _taylor_integrand(a1, beta0, b, m, 3)
-            v = prove_zero(J.tangent() - rhs, "d %s_expanded/d a1 == Taylor_{<=2}" % name)
+            v = prove_equal(J.tangent(), rhs, "d %s_expanded/d a1 == Taylor_{<=2}" % name)
             log.decide(v, key="as4.%s_expanded:derivative" % name, replay=(MOD, "replay_as4_exp", {"name": name}), sampler=_sampler)
             v = prove_zero(J0, "%s_expanded(a0,a0)==0" % name)
             log.decide(v, key="as4.%s_expanded:zero" % name, replay=(MOD, "replay_as4_exp", {"name": name, "zero": True}), sampler=_sampler)
